@@ -5,8 +5,405 @@ import EtkVerif.Hex.Model
 namespace EtkVerif
 namespace Hex
 
+/-! ### HexRead -/
+
 /-- The text after the optional `0x` prefix. -/
 def body (text : List Nat) : List Nat := if text.take 2 = [48, 120] then text.drop 2 else text
+
+theorem Rd.read_spec (r : Rd) (cap : Nat) (hcap : 1 ≤ cap) :
+    ∃ n s', r.read cap = (r.data.take n, ⟨r.data.drop n, s'⟩) ∧ n ≤ r.data.length ∧
+      (r.data ≠ [] → 1 ≤ n) := by
+  unfold Rd.read
+  refine ⟨_, _, rfl, ?_, ?_⟩
+  · exact Nat.le_trans (Nat.min_le_left ..) (Nat.min_le_right ..)
+  · intro h
+    have : 1 ≤ r.data.length := by
+      cases hd : r.data with
+      | nil => exact absurd hd h
+      | cons => simp
+    cases r.sched <;> simp only <;> omega
+
+theorem body_append (x y : List Nat) (h : 2 ≤ x.length) : body (x ++ y) = body x ++ y := by
+  unfold body
+  have : (x ++ y).take 2 = x.take 2 := by
+    rw [List.take_append_of_le_length h]
+  rw [this]
+  split
+  · rw [List.drop_append_of_le_length h]
+  · rfl
+
+theorem body_short (x : List Nat) (h : x.length < 2) : body x = x := by
+  unfold body
+  rw [if_neg]
+  intro h2
+  have := congrArg List.length h2
+  simp at this; omega
+
+/-- The prefix-handling step inside the loop. -/
+def pstep (content : List Nat) (total : Nat) (firstRead : Bool) : List Nat × Nat × Bool :=
+  if firstRead && decide (content.length ≥ 2) then
+    if content.take 2 = [48, 120] then
+      (content.drop 2, if total > 2 then total - 2 else total, false)
+    else (content, total, false)
+  else (content, total, firstRead)
+
+theorem readLoop_succ (fuel : Nat) (c : List Nat) (T : Nat) (f : Bool) (rd : Rd) :
+    readLoop (fuel + 1) c T f rd =
+      let chunk := (rd.read (T - c.length)).1
+      let rd' := (rd.read (T - c.length)).2
+      let p := pstep (c ++ chunk) T f
+      if chunk.isEmpty || decide (p.1.length > 1) then some ⟨p.1, p.2.1, p.2.2, rd', chunk.isEmpty⟩
+      else readLoop fuel p.1 p.2.1 p.2.2 rd' := by
+  rfl
+
+def tgt (f : Bool) (w : List Nat) : List Nat := if f then body w else w
+
+theorem pstep_spec (X : List Nat) (T : Nat) (f : Bool) (hT : 2 ≤ T) (hT3 : f = true → T ≠ 3) :
+    (∀ Y, tgt (pstep X T f).2.2 ((pstep X T f).1 ++ Y) = tgt f (X ++ Y)) ∧
+    (2 ≤ (pstep X T f).1.length → (pstep X T f).2.2 = false) ∧
+    2 ≤ (pstep X T f).2.1 ∧ ((pstep X T f).2.2 = true → (pstep X T f).2.1 ≠ 3) ∧
+    (X.length ≤ 1 → pstep X T f = (X, T, f)) := by
+  cases f with
+  | false => simp [pstep, tgt, hT]
+  | true =>
+    have hT3' := hT3 rfl
+    by_cases hX : 2 ≤ X.length
+    · by_cases hp : X.take 2 = [48, 120]
+      · have hb : body X = X.drop 2 := by simp [body, hp]
+        simp only [pstep, Bool.true_and, ge_iff_le, hX, decide_true, if_true, hp, tgt]
+        refine ⟨?_, ?_, ?_, ?_, ?_⟩
+        · intro Y; rw [body_append _ _ hX, hb]; simp
+        · simp
+        · split <;> omega
+        · simp
+        · intro h; omega
+      · have hb : body X = X := by simp [body, hp]
+        simp only [pstep, Bool.true_and, ge_iff_le, hX, decide_true, if_true, hp, tgt]
+        refine ⟨?_, ?_, ?_, ?_, ?_⟩
+        · intro Y; rw [body_append _ _ hX, hb]; simp
+        · simp
+        · exact hT
+        · simp
+        · intro h; omega
+    · have : pstep X T true = (X, T, true) := by simp [pstep, hX]
+      rw [this]
+      simp [hT, hT3']
+      omega
+
+theorem readLoop_spec (fuel : Nat) : ∀ (c : List Nat) (T : Nat) (f : Bool) (rd : Rd),
+    c.length ≤ 1 → 2 ≤ T → (f = true → T ≠ 3) → rd.data.length + 1 ≤ fuel →
+    ∃ l, readLoop fuel c T f rd = some l ∧
+      l.content ++ l.rd.data = tgt f (c ++ rd.data) ∧
+      (l.eof = true → l.rd.data = [] ∧ l.content.length ≤ 1) ∧
+      (l.eof = false → 2 ≤ l.content.length ∧ l.firstRead = false) := by
+  induction fuel with
+  | zero => intro _ _ _ _ _ _ _ h; omega
+  | succ fuel ih =>
+    intro c T f rd hc hT hT3 hfuel
+    obtain ⟨n, s', hrd, hn, hn1⟩ := Rd.read_spec rd (T - c.length) (by omega)
+    rw [readLoop_succ, hrd]
+    simp only
+    by_cases hn0 : n = 0
+    · subst hn0
+      have hD : rd.data = [] := by
+        cases h : rd.data with
+        | nil => rfl
+        | cons => have := hn1 (by simp [h]); omega
+      have hp := (pstep_spec c T f hT hT3).2.2.2.2 hc
+      simp only [List.take_zero, List.append_nil, List.isEmpty_nil, Bool.true_or, if_true, hp]
+      refine ⟨_, rfl, ?_, ?_, ?_⟩
+      · simp only [List.drop_zero, hD, List.append_nil]
+        cases f with
+        | false => rfl
+        | true => simp only [tgt, if_true]; rw [body_short _ (by omega)]
+      · intro _; exact ⟨by simp [hD], hc⟩
+      · intro h; simp at h
+    · have hne : (rd.data.take n).isEmpty = false := by
+        cases h : rd.data.take n with
+        | nil =>
+          have := congrArg List.length h
+          simp only [List.length_take, List.length_nil] at this; omega
+        | cons => rfl
+      obtain ⟨hp1, hp2, hp3, hp4, _⟩ := pstep_spec (c ++ rd.data.take n) T f hT hT3
+      have hp1' := hp1 (rd.data.drop n)
+      rw [List.append_assoc, List.take_append_drop] at hp1'
+      generalize pstep (c ++ rd.data.take n) T f = p at *
+      rw [hne]
+      by_cases hlen : p.1.length > 1
+      · simp only [Bool.false_or, hlen, decide_true, if_true]
+        refine ⟨_, rfl, ?_, ?_, ?_⟩
+        · simp only; rw [← hp1', hp2 hlen]; rfl
+        · intro h; simp at h
+        · intro _; exact ⟨hlen, hp2 hlen⟩
+      · simp only [Bool.false_or, hlen, decide_false]
+        obtain ⟨l, hl, h1, h2, h3⟩ := ih p.1 p.2.1 p.2.2 ⟨rd.data.drop n, s'⟩ (by omega) hp3 hp4
+          (by simp only [List.length_drop]; omega)
+        refine ⟨l, hl, ?_, h2, h3⟩
+        rw [h1]; exact hp1'
+
+theorem decodePairs_length : ∀ (a bs : List Nat), decodePairs a = some bs → a.length = 2 * bs.length
+  | [], bs, h => by simp [decodePairs] at h; subst h; rfl
+  | [_], bs, h => by simp [decodePairs] at h
+  | a :: b :: rest, bs, h => by
+    simp only [decodePairs] at h
+    split at h
+    · rename_i x y r hx hy hr
+      injection h with h; subst h
+      have := decodePairs_length rest r hr
+      simp; omega
+    · cases h
+
+theorem decodePairs_append : ∀ (a b : List Nat), a.length % 2 = 0 →
+    decodePairs (a ++ b) = (decodePairs a).bind fun x => (decodePairs b).map (x ++ ·)
+  | [], b, _ => by simp [decodePairs]
+  | [_], b, h => by simp at h
+  | x :: y :: rest, b, h => by
+    have ih := decodePairs_append rest b (by simp at h; omega)
+    simp only [List.cons_append, decodePairs, ih]
+    cases hexVal x <;> cases hexVal y <;> cases decodePairs rest <;> cases decodePairs b <;> simp
+
+/-- `denote` after the prefix has been removed. -/
+def denB (b : List Nat) : Option (List Nat) :=
+  let b' := if b.length % 2 == 1 && isWs (b.getLast?.getD 0) then b.dropLast else b
+  if b'.length % 2 == 1 then none else decodePairs b'
+
+theorem denote_eq (t : List Nat) : denote t = denB (body t) := rfl
+
+theorem denB_append (a r : List Nat) (ha : a.length % 2 = 0) :
+    denB (a ++ r) = (decodePairs a).bind fun x => (denB r).map (x ++ ·) := by
+  cases hr : r with
+  | nil =>
+    have : (a.length % 2 == 1) = false := by simp [ha]
+    simp only [denB, List.append_nil, this, Bool.false_and]
+    simp [decodePairs, ha]
+  | cons r0 rs =>
+    rw [← hr]
+    have hne : r ≠ [] := by simp [hr]
+    have h1 : ((a ++ r).length % 2 == 1) = (r.length % 2 == 1) := by
+      simp only [List.length_append]; congr 1; omega
+    have h2 : (a ++ r).getLast? = r.getLast? := by
+      rw [List.getLast?_append]; cases h : r.getLast? with
+      | none => simp [List.getLast?_eq_none_iff] at h; exact absurd h hne
+      | some => simp
+    have h3 : (a ++ r).dropLast = a ++ r.dropLast := List.dropLast_append_of_ne_nil hne
+    simp only [denB, h1, h2, h3]
+    split
+    · have h4 : ((a ++ r.dropLast).length % 2 == 1) = (r.dropLast.length % 2 == 1) := by
+        simp only [List.length_append]; congr 1; omega
+      rw [h4]
+      split
+      · cases decodePairs a <;> simp
+      · rw [decodePairs_append _ _ ha]
+    · rw [h1]
+      split
+      · cases decodePairs a <;> simp
+      · rw [decodePairs_append _ _ ha]
+
+def tot (st : St) (bufLen : Nat) : Nat :=
+  match st.remainder with | some _ => 1 + 2 * bufLen | none => 2 * bufLen
+
+/-- The part of `read` after the inner loop. -/
+def finish (st : St) (l : Loop) : Res × St × Rd :=
+  let st1 : St := { st with firstRead := l.firstRead }
+  if l.eof && l.content.length == 1 then
+    if isWs (l.content.headD 0) then (.ok [], st1, l.rd)
+    else (.oddLength, st1, l.rd)
+  else
+    let (avail, st2) : List Nat × St :=
+      if l.content.length % 2 == 0 then (l.content, { st1 with remainder := none })
+      else (l.content.dropLast, { st1 with remainder := l.content.getLast? })
+    if avail.isEmpty then (.ok [], st2, l.rd)
+    else match decodePairs avail with
+      | some bs => (.ok bs, st2, l.rd)
+      | none => (.invalid, st2, l.rd)
+
+theorem read_eq (fuel : Nat) (st : St) (rd : Rd) (bufLen : Nat) (h : bufLen ≠ 0) :
+    read fuel st rd bufLen =
+      match readLoop fuel st.remainder.toList (tot st bufLen) st.firstRead rd with
+      | none => (.outOfFuel, st, rd)
+      | some l => finish st l := by
+  unfold read
+  rw [if_neg h]
+  obtain ⟨f, r⟩ := st
+  cases r <;> rfl
+
+theorem finish_eof (st : St) (l : Loop) (heof : l.eof = true) (hlen : l.content.length ≤ 1) :
+    (l.content = [] ∧ ∃ st', finish st l = (.ok [], st', l.rd)) ∨
+    (∃ c, l.content = [c] ∧ isWs c = true ∧ ∃ st', finish st l = (.ok [], st', l.rd)) ∨
+    (∃ c, l.content = [c] ∧ isWs c = false ∧ ∃ st', finish st l = (.oddLength, st', l.rd)) := by
+  obtain ⟨content, total, fr, rd, eof⟩ := l
+  simp only at heof hlen
+  subst heof
+  match content, hlen with
+  | [], _ => left; exact ⟨rfl, _, rfl⟩
+  | [c], _ =>
+    right
+    cases hw : isWs c with
+    | true => left; exact ⟨c, rfl, hw, { st with firstRead := fr }, by simp [finish, hw]⟩
+    | false => right; exact ⟨c, rfl, hw, { st with firstRead := fr }, by simp [finish, hw]⟩
+  | _ :: _ :: _, h => simp at h
+
+theorem finish_run (st : St) (l : Loop) (heof : l.eof = false) (hlen : 2 ≤ l.content.length)
+    (hf : l.firstRead = false) :
+    ∃ avail st', finish st l =
+        ((match decodePairs avail with | some bs => Res.ok bs | none => Res.invalid), st', l.rd) ∧
+      avail.length % 2 = 0 ∧ 2 ≤ avail.length ∧ avail ++ st'.remainder.toList = l.content ∧
+      st'.firstRead = false := by
+  obtain ⟨content, total, fr, rd, eof⟩ := l
+  simp only at heof hlen hf
+  subst heof hf
+  by_cases hev : content.length % 2 = 0
+  · refine ⟨content, { firstRead := false, remainder := none }, ?_, hev, hlen, by simp, rfl⟩
+    have hne : content.isEmpty = false := by
+      cases content with
+      | nil => simp at hlen
+      | cons => rfl
+    simp only [finish, Bool.false_and, hev, beq_self_eq_true, if_true, hne]
+    cases decodePairs content <;> simp
+  · have hne0 : content ≠ [] := by intro h; subst h; simp at hlen
+    obtain ⟨x, hx, hdl⟩ : ∃ x, content.getLast? = some x ∧ content.dropLast ++ [x] = content :=
+      ⟨_, List.getLast?_eq_some_getLast hne0, List.dropLast_concat_getLast hne0⟩
+    have hlen' : content.dropLast.length = content.length - 1 := by simp
+    refine ⟨content.dropLast, { firstRead := false, remainder := some x }, ?_, by omega, by omega, by simpa using hdl, rfl⟩
+    have hne : content.dropLast.isEmpty = false := by
+      cases h : content.dropLast with
+      | nil => rw [h] at hlen'; simp at hlen'; omega
+      | cons => rfl
+    have hev' : (content.length % 2 == 0) = false := by simp [hev]
+    simp only [finish, Bool.false_and, hev', Bool.false_eq_true, if_false, hne, hx]
+    cases decodePairs content.dropLast <;> simp
+
+theorem body_length_le (x : List Nat) : (body x).length ≤ x.length := by
+  unfold body; split <;> simp
+
+theorem tgt_length_le (f : Bool) (x : List Nat) : (tgt f x).length ≤ x.length := by
+  cases f
+  · exact Nat.le_refl _
+  · exact body_length_le x
+
+/-- What one `read` call does, in terms of the remaining logical text. -/
+theorem read_spec (fuel : Nat) (st : St) (rd : Rd) (sz : Nat) (hsz : 1 ≤ sz)
+    (hinv : st.remainder.isSome = true → st.firstRead = false) (hfuel : rd.data.length + 1 ≤ fuel) :
+    (tgt st.firstRead (st.remainder.toList ++ rd.data) = [] ∧
+      ∃ st' rd', read fuel st rd sz = (.ok [], st', rd')) ∨
+    (∃ c, tgt st.firstRead (st.remainder.toList ++ rd.data) = [c] ∧ isWs c = true ∧
+      ∃ st' rd', read fuel st rd sz = (.ok [], st', rd')) ∨
+    (∃ c, tgt st.firstRead (st.remainder.toList ++ rd.data) = [c] ∧ isWs c = false ∧
+      ∃ st' rd', read fuel st rd sz = (.oddLength, st', rd')) ∨
+    (∃ avail st' rd', read fuel st rd sz =
+        ((match decodePairs avail with | some bs => Res.ok bs | none => Res.invalid), st', rd') ∧
+      avail.length % 2 = 0 ∧ 2 ≤ avail.length ∧
+      tgt st.firstRead (st.remainder.toList ++ rd.data) = avail ++ (st'.remainder.toList ++ rd'.data) ∧
+      st'.firstRead = false) := by
+  have hc : st.remainder.toList.length ≤ 1 := by cases st.remainder <;> simp
+  have hT : 2 ≤ tot st sz := by unfold tot; split <;> omega
+  have hT3 : st.firstRead = true → tot st sz ≠ 3 := by
+    intro h
+    cases hr : st.remainder with
+    | none => simp only [tot, hr]; omega
+    | some r => have := hinv (by simp [hr]); rw [h] at this; cases this
+  obtain ⟨l, hl, h1, h2, h3⟩ := readLoop_spec fuel st.remainder.toList (tot st sz) st.firstRead rd hc hT hT3 hfuel
+  rw [read_eq _ _ _ _ (by omega), hl]
+  simp only
+  cases heof : l.eof with
+  | true =>
+    obtain ⟨hd, hlen⟩ := h2 heof
+    rw [hd, List.append_nil] at h1
+    rw [← h1]
+    rcases finish_eof st l heof hlen with ⟨hc, st', hf⟩ | ⟨c, hc, hw, st', hf⟩ | ⟨c, hc, hw, st', hf⟩
+    · left; exact ⟨hc, st', _, hf⟩
+    · right; left; exact ⟨c, hc, hw, st', _, hf⟩
+    · right; right; left; exact ⟨c, hc, hw, st', _, hf⟩
+  | false =>
+    obtain ⟨hlen, hfr⟩ := h3 heof
+    obtain ⟨avail, st', hf, ha1, ha2, ha3, ha4⟩ := finish_run st l heof hlen hfr
+    right; right; right
+    refine ⟨avail, st', l.rd, hf, ha1, ha2, ?_, ha4⟩
+    rw [← h1, ← ha3, List.append_assoc]
+
+theorem readAll_ok_nil (fuel : Nat) (st : St) (rd : Rd) (bufs acc : List Nat) (st' : St) (rd' : Rd)
+    (h : read (rd.data.length + 3) st rd (max (bufs.headD 64) 1) = (.ok [], st', rd')) :
+    readAll (fuel + 1) st rd bufs acc = .ok acc := by
+  simp only [readAll, h]
+
+theorem readAll_ok_cons (fuel : Nat) (st : St) (rd : Rd) (bufs acc : List Nat) (st' : St) (rd' : Rd)
+    (b : Nat) (bs : List Nat)
+    (h : read (rd.data.length + 3) st rd (max (bufs.headD 64) 1) = (.ok (b :: bs), st', rd')) :
+    readAll (fuel + 1) st rd bufs acc = readAll fuel st' rd' (bufs.drop 1) (acc ++ b :: bs) := by
+  simp only [readAll, h]
+
+theorem readAll_odd (fuel : Nat) (st : St) (rd : Rd) (bufs acc : List Nat) (st' : St) (rd' : Rd)
+    (h : read (rd.data.length + 3) st rd (max (bufs.headD 64) 1) = (.oddLength, st', rd')) :
+    readAll (fuel + 1) st rd bufs acc = .err acc := by
+  simp only [readAll, h]
+
+theorem readAll_invalid (fuel : Nat) (st : St) (rd : Rd) (bufs acc : List Nat) (st' : St) (rd' : Rd)
+    (h : read (rd.data.length + 3) st rd (max (bufs.headD 64) 1) = (.invalid, st', rd')) :
+    readAll (fuel + 1) st rd bufs acc = .err acc := by
+  simp only [readAll, h]
+
+theorem readAll_gen (fuel : Nat) : ∀ (st : St) (rd : Rd) (bufs acc : List Nat),
+    (st.remainder.isSome = true → st.firstRead = false) →
+    (st.remainder.toList ++ rd.data).length + 1 ≤ fuel →
+    match denB (tgt st.firstRead (st.remainder.toList ++ rd.data)) with
+    | some bs => readAll fuel st rd bufs acc = .ok (acc ++ bs)
+    | none => ∃ pre k, readAll fuel st rd bufs acc = .err (acc ++ pre) ∧
+        decodePairs ((tgt st.firstRead (st.remainder.toList ++ rd.data)).take (2 * k)) = some pre := by
+  induction fuel with
+  | zero => intros; omega
+  | succ fuel ih =>
+    intro st rd bufs acc hinv hfuel
+    have hsz : 1 ≤ max (bufs.headD 64) 1 := Nat.le_max_right _ _
+    rcases read_spec (rd.data.length + 3) st rd _ hsz hinv (by omega) with
+      ⟨hR, st', rd', hr⟩ | ⟨c, hR, hw, st', rd', hr⟩ | ⟨c, hR, hw, st', rd', hr⟩ |
+      ⟨avail, st', rd', hr, ha1, ha2, hR, hf'⟩
+    · rw [hR]
+      have : denB [] = some [] := by simp [denB, decodePairs]
+      rw [this]; simp only [List.append_nil]
+      exact readAll_ok_nil _ _ _ _ _ _ _ hr
+    · rw [hR]
+      have : denB [c] = some [] := by simp [denB, hw, decodePairs]
+      rw [this]; simp only [List.append_nil]
+      exact readAll_ok_nil _ _ _ _ _ _ _ hr
+    · rw [hR]
+      have : denB [c] = none := by simp [denB, hw]
+      rw [this]
+      exact ⟨[], 0, by rw [readAll_odd _ _ _ _ _ _ _ hr]; simp, by simp [decodePairs]⟩
+    · rw [hR, denB_append _ _ ha1]
+      cases hd : decodePairs avail with
+      | none =>
+        rw [hd] at hr
+        exact ⟨[], 0, by rw [readAll_invalid _ _ _ _ _ _ _ hr]; simp, by simp [decodePairs]⟩
+      | some a =>
+        rw [hd] at hr; simp only at hr
+        have hal := decodePairs_length _ _ hd
+        obtain ⟨b, bs, rfl⟩ : ∃ b bs, a = b :: bs := by
+          cases a with
+          | nil => simp only [List.length_nil] at hal; omega
+          | cons b bs => exact ⟨b, bs, rfl⟩
+        have hstep := readAll_ok_cons fuel st rd bufs acc st' rd' b bs hr
+        have hlen : (st'.remainder.toList ++ rd'.data).length + 1 ≤ fuel := by
+          have := tgt_length_le st.firstRead (st.remainder.toList ++ rd.data)
+          rw [hR] at this
+          simp only [List.length_append] at this hfuel ⊢; omega
+        have ih' := ih st' rd' (bufs.drop 1) (acc ++ b :: bs) (fun _ => hf') hlen
+        rw [hf'] at ih'
+        simp only [tgt, Bool.false_eq_true, if_false] at ih'
+        simp only [Option.bind_some]
+        cases hden : denB (st'.remainder.toList ++ rd'.data) with
+        | some r =>
+          rw [hden] at ih'
+          simp only [Option.map_some]
+          rw [hstep, ih']; simp
+        | none =>
+          rw [hden] at ih'
+          obtain ⟨pre, k, he, hk⟩ := ih'
+          simp only [Option.map_none]
+          refine ⟨b :: bs ++ pre, (b :: bs).length + k, ?_, ?_⟩
+          · rw [hstep, he]; simp
+          · have : 2 * ((b :: bs).length + k) = avail.length + 2 * k := by omega
+            rw [this, List.take_length_add_append, decodePairs_append _ _ ha1, hd, hk]
+            simp
 
 /-- Reading to the end through `HexRead`, for every text, every fragmentation of
 the underlying reader and every sequence of caller buffer sizes: the bytes
@@ -17,7 +414,32 @@ theorem readAll_correct (text sched bufs : List Nat) (fuel : Nat) (hf : text.len
     | some bs => readAll fuel {} ⟨text, sched⟩ bufs [] = .ok bs
     | none => ∃ pre k, readAll fuel {} ⟨text, sched⟩ bufs [] = .err pre ∧
                 decodePairs ((body text).take (2 * k)) = some pre := by
-  sorry
+  have h := readAll_gen fuel {} ⟨text, sched⟩ bufs [] (by simp) (by simp; omega)
+  simp only [tgt, Option.toList, List.nil_append, if_true, List.nil_append] at h
+  rw [denote_eq]
+  exact h
+
+/-! ### HexWrite and the codec -/
+
+theorem encode_length (b : List Nat) : (encode b).length = 2 * b.length := by
+  induction b with
+  | nil => rfl
+  | cons x xs ih => simp [encode, ih]; omega
+
+theorem encode_append (a b : List Nat) : encode (a ++ b) = encode a ++ encode b := by
+  induction a with
+  | nil => rfl
+  | cons x xs ih => simp [encode, ih]
+
+theorem encode_take (b : List Nat) (k : Nat) : (encode b).take (2 * k) = encode (b.take k) := by
+  induction b generalizing k with
+  | nil => simp [encode]
+  | cons x xs ih =>
+    cases k with
+    | zero => simp [encode]
+    | succ k =>
+      have : 2 * (k+1) = (2*k) + 1 + 1 := by omega
+      rw [this]; simp [encode, ih]
 
 /-- One `HexWrite::write`: an even acceptance reports exactly the bytes whose
 digits the sink received; an odd acceptance is an error. -/
@@ -25,7 +447,64 @@ theorem write_spec (buf : List Nat) (accept : Nat) :
     let wrote := min accept (2 * buf.length)
     (wrote % 2 = 0 → write buf accept = (.ok (wrote / 2), encode (buf.take (wrote / 2)))) ∧
     (wrote % 2 = 1 → (write buf accept).1 = .err) := by
-  sorry
+  intro wrote
+  constructor
+  · intro h
+    have h2 : min accept (2 * buf.length) = 2 * (wrote / 2) := by omega
+    simp only [write, encode_length]
+    rw [h2, encode_take]
+    have : 2 * (wrote / 2) % 2 = 0 := by omega
+    simp [this]
+  · intro h
+    have h2 : min accept (2 * buf.length) % 2 = 1 := h
+    simp [write, encode_length, h2]
+
+def szOf (sizes data : List Nat) : Nat := match sizes with | [] => data.length | s :: _ => max s 1
+def accOf (accepts : List Nat) (k : Nat) : Nat := match accepts with | [] => 2 * k | a :: _ => a
+
+theorem writeLoop_succ (fuel : Nat) (data accepts sizes sink : List Nat) (total : Nat) :
+    writeLoop (fuel + 1) data accepts sizes sink total =
+      if data.isEmpty then (true, sink, total)
+      else match write (data.take (szOf sizes data)) (accOf accepts (data.take (szOf sizes data)).length) with
+        | (.err, got) => (false, sink ++ got, total)
+        | (.ok n, got) => writeLoop fuel (data.drop n) (accepts.drop 1) (sizes.drop 1) (sink ++ got) (total + n) := by
+  cases sizes <;> cases accepts <;> rfl
+
+theorem writeLoop_gen (fuel : Nat) : ∀ (data accepts sizes sink : List Nat) (total : Nat),
+    (∀ a ∈ accepts, a % 2 = 0) →
+    (writeLoop fuel data accepts sizes sink total).1 = true ∧
+    ∃ n, n ≤ data.length ∧ (writeLoop fuel data accepts sizes sink total).2.2 = total + n ∧
+      (writeLoop fuel data accepts sizes sink total).2.1 = sink ++ encode (data.take n) := by
+  induction fuel with
+  | zero => intro data accepts sizes sink total _; exact ⟨rfl, 0, by simp [writeLoop, encode]⟩
+  | succ fuel ih =>
+    intro data accepts sizes sink total hev
+    rw [writeLoop_succ]
+    by_cases hd : data.isEmpty
+    · simp only [hd, if_true]; exact ⟨trivial, 0, by simp [encode]⟩
+    · rw [if_neg hd]
+      generalize szOf sizes data = sz
+      generalize hacc : accOf accepts (List.take sz data).length = acc
+      have hacc2 : acc % 2 = 0 := by
+        subst hacc; cases accepts with
+        | nil => simp [accOf]
+        | cons a as => exact hev a (by simp)
+      have hw := write_spec (data.take sz) acc
+      simp only at hw
+      have hwe : min acc (2 * (List.take sz data).length) % 2 = 0 := by omega
+      have hw1 := hw.1 hwe
+      rw [hw1]
+      simp only
+      generalize hn : min acc (2 * (List.take sz data).length) / 2 = n at *
+      have hnle : n ≤ (data.take sz).length := by omega
+      have hnsz : n ≤ sz := by simp at hnle; omega
+      have hnd : n ≤ data.length := by simp at hnle; omega
+      have hev' : ∀ a ∈ accepts.drop 1, a % 2 = 0 := fun a ha => hev a (List.mem_of_mem_drop ha)
+      obtain ⟨h1, m, hm, h2, h3⟩ := ih (data.drop n) (accepts.drop 1) (sizes.drop 1) (sink ++ encode ((data.take sz).take n)) (total + n) hev'
+      refine ⟨h1, n + m, ?_, ?_, ?_⟩
+      · simp at hm; omega
+      · rw [h2]; omega
+      · rw [h3, List.take_take, Nat.min_eq_left hnsz, List.take_add, encode_append, List.append_assoc]
 
 /-- The caller loop over a sink whose acceptances are all even: the sink holds
 exactly the lowercase hex of the bytes reported as written (which are a prefix
@@ -34,17 +513,97 @@ theorem writeLoop_even (fuel : Nat) (data accepts sizes : List Nat)
     (hev : ∀ a ∈ accepts, a % 2 = 0) :
     let r := writeLoop fuel data accepts sizes [] 0
     r.1 = true ∧ r.2.1 = encode (data.take r.2.2) ∧ r.2.2 ≤ data.length := by
-  sorry
+  intro r
+  obtain ⟨h1, n, hn, h2, h3⟩ := writeLoop_gen fuel data accepts sizes [] 0 hev
+  have h2' : r.2.2 = n := by simpa using h2
+  refine ⟨h1, ?_, ?_⟩
+  · rw [h2']; simpa using h3
+  · rw [h2']; exact hn
+
+theorem writeLoop_all (fuel : Nat) : ∀ (data accepts sizes sink : List Nat) (total : Nat),
+    (∀ a ∈ accepts, a % 2 = 0 ∧ 2 ≤ a) → data.length + 1 ≤ fuel →
+    writeLoop fuel data accepts sizes sink total = (true, sink ++ encode data, total + data.length) := by
+  induction fuel with
+  | zero => intro data accepts sizes sink total _ hf; omega
+  | succ fuel ih =>
+    intro data accepts sizes sink total hev hf
+    rw [writeLoop_succ]
+    by_cases hd : data.isEmpty
+    · rw [if_pos hd]
+      have : data = [] := by simpa using hd
+      subst this; simp [encode]
+    · rw [if_neg hd]
+      have hdl : 1 ≤ data.length := by
+        cases data with
+        | nil => simp at hd
+        | cons => simp
+      have hsz : 1 ≤ szOf sizes data := by
+        cases sizes with
+        | nil => exact hdl
+        | cons s ss => simp only [szOf]; omega
+      generalize szOf sizes data = sz at *
+      have hpl : 1 ≤ (data.take sz).length := by simp; omega
+      generalize hacc : accOf accepts (List.take sz data).length = acc
+      have hacc2 : acc % 2 = 0 ∧ 2 ≤ acc := by
+        subst hacc; cases accepts with
+        | nil => simp only [accOf]; omega
+        | cons a as => exact hev a (by simp)
+      have hw := write_spec (data.take sz) acc
+      simp only at hw
+      have hwe : min acc (2 * (List.take sz data).length) % 2 = 0 := by omega
+      have hw1 := hw.1 hwe
+      rw [hw1]
+      simp only
+      generalize hn : min acc (2 * (List.take sz data).length) / 2 = n at *
+      have hnle : n ≤ (data.take sz).length := by omega
+      have hn1 : 1 ≤ n := by omega
+      have hnsz : n ≤ sz := by simp at hnle; omega
+      have hnd : n ≤ data.length := by simp at hnle; omega
+      have hev' : ∀ a ∈ accepts.drop 1, a % 2 = 0 ∧ 2 ≤ a := fun a ha => hev a (List.mem_of_mem_drop ha)
+      rw [ih (data.drop n) (accepts.drop 1) (sizes.drop 1) _ _ hev' (by simp; omega)]
+      rw [List.take_take, Nat.min_eq_left hnsz, List.append_assoc, ← encode_append, List.take_append_drop]
+      simp; omega
 
 /-- … and with positive acceptances and enough fuel everything gets written. -/
 theorem writeLoop_complete (data accepts sizes : List Nat)
     (hev : ∀ a ∈ accepts, a % 2 = 0 ∧ 2 ≤ a) :
     (writeLoop (data.length + 1) data accepts sizes [] 0) = (true, encode data, data.length) := by
-  sorry
+  rw [writeLoop_all _ data accepts sizes [] 0 hev (Nat.le_refl _)]; simp
+
+theorem hexVal_hexDigit (n : Nat) (h : n < 16) : hexVal (hexDigit n) = some n := by
+  unfold hexDigit hexVal
+  by_cases h1 : n < 10
+  · rw [if_pos h1, if_pos (by omega)]; congr 1; omega
+  · rw [if_neg h1, if_neg (by omega), if_pos (by omega)]; congr 1; omega
+
+theorem decodePairs_encode (bs : List Nat) (hb : ∀ b ∈ bs, b < 256) : decodePairs (encode bs) = some bs := by
+  induction bs with
+  | nil => rfl
+  | cons b bs ih =>
+    have hb1 : b < 256 := hb b (by simp)
+    have ih' := ih (fun x hx => hb x (by simp [hx]))
+    simp only [encode, decodePairs]
+    rw [hexVal_hexDigit _ (by omega), hexVal_hexDigit _ (by omega), ih']
+    simp only; congr 2; omega
+
+theorem encode_no_prefix (bs : List Nat) (hb : ∀ b ∈ bs, b < 256) : (encode bs).take 2 ≠ [48, 120] := by
+  cases bs with
+  | nil => simp [encode]
+  | cons b bs =>
+    have hb1 : b < 256 := hb b (by simp)
+    simp only [encode, List.take_succ_cons, List.take_zero]
+    intro h
+    have h2 : hexDigit (b % 16) = 120 := by
+      injection h with _ h; injection h
+    unfold hexDigit at h2
+    split at h2 <;> omega
 
 /-- Encoding followed by decoding is the identity. -/
 theorem denote_encode (bs : List Nat) (hb : ∀ b ∈ bs, b < 256) : denote (encode bs) = some bs := by
-  sorry
+  unfold denote
+  simp only [if_neg (encode_no_prefix bs hb)]
+  have hl : (encode bs).length % 2 = 0 := by rw [encode_length]; omega
+  simp [hl, decodePairs_encode bs hb]
 
 end Hex
 end EtkVerif
